@@ -116,6 +116,10 @@ fn run_clock_error_bound_poller(
 
     // Keep on running forever until we receive the instruction to stop.
     while keep_running {
+        #[cfg(feature = "verif")]
+        if crate::verif::fault_point("poller:loop_top") {
+            return;
+        }
         // First, make sure we take a MONOTONIC timestamp *before* getting chronyd data. This will
         // slightly inflate the dispersion component of the clock error bound but better be
         // pessimistic and correct, than greedy and wrong. The actual error added here is expected
@@ -126,6 +130,10 @@ fn run_clock_error_bound_poller(
         // scheduled out or delayed.
         match clock_gettime_safe(CLOCK_MONOTONIC) {
             Ok(as_of) => {
+                #[cfg(feature = "verif")]
+                if crate::verif::fault_point("poller:after_clock_read") {
+                    return;
+                }
                 // If polling is successful, pass the tracking data and monotonic timestamp to the
                 // shm writer. Otherwise signal chrony is not responding.
                 let message = match poller.get_tracking() {
@@ -157,6 +165,10 @@ fn run_clock_error_bound_poller(
                     }
                 };
 
+                #[cfg(feature = "verif")]
+                if crate::verif::fault_point("poller:before_send") {
+                    return;
+                }
                 match ctx.dbox.send(&ChannelId::ShmWriter, message) {
                     Ok(()) => (),
                     Err(_) => {
@@ -164,6 +176,10 @@ fn run_clock_error_bound_poller(
                         panic!("Broken channel to ShmWriter");
                     }
                 };
+                #[cfg(feature = "verif")]
+                if crate::verif::fault_point("poller:after_send") {
+                    return;
+                }
             }
             Err(e) => error!(
                 "Failed to retrieve monotonic clock time before polling chronyd {:?}",
@@ -171,6 +187,10 @@ fn run_clock_error_bound_poller(
             ),
         }
 
+        #[cfg(feature = "verif")]
+        if crate::verif::fault_point("poller:before_recv") {
+            return;
+        }
         // TODO: this is a very naive implementation. If messages are received in a burst, this
         // would hit chronyd at the same pace. In the current implementation, this is not happening
         // since only the Abort message is meant to be sent to the chronyd polling thread. However,
@@ -184,12 +204,20 @@ fn run_clock_error_bound_poller(
             Err(mpsc::RecvTimeoutError::Timeout) => (),
             Err(e) => error!("Error reading from MPSC channel: {:?}", e),
         }
+        #[cfg(feature = "verif")]
+        if crate::verif::fault_point("poller:after_recv") {
+            return;
+        }
     }
 }
 
 /// Entry point to this thread.
 pub fn run(ctx: Context, phc_info: Option<PhcInfo>) {
     info!("Starting chronyd polling thread");
+    #[cfg(feature = "verif")]
+    if crate::verif::fault_point("poller:startup") {
+        return;
+    }
     let poller = ClockErrorBoundPoller::default();
     let sleep = Duration::from_millis(1000);
     run_clock_error_bound_poller(ctx, poller, phc_info, sleep);
